@@ -50,14 +50,15 @@ Inductive flag :=
 | F_C2 (* vars: a single value wrapped for a list type makes a typed slice, which cannot hold a further wrapped item *)
 | F_A1 (* argmap: an oversize numeric literal for a custom scalar panics *)
 | F_A2 (* argmap: the default of a top-level variable is not used when the variable is absent from the map *)
-| F_X5 | F_X6 | F_X7 | F_X8 | F_X9.
+| F_F5 (* formatter: FormatSchema drops the schema description *)
+| F_X6 | F_X7 | F_X8 | F_X9.
 
 Definition flag_id (f : flag) : N :=
   match f with
   | F_L1 => 1 | F_L2 => 2 | F_L3 => 3 | F_P1 => 4 | F_P2 => 5 | F_P3 => 6
   | F_Q1 => 7 | F_Q2 => 8 | F_Q3 => 9 | F_Q4 => 10
   | F_S1 => 11 | F_S2 => 12 | F_S3 => 13 | F_S4 => 14 | F_S5 => 15 | F_S6 => 16 | F_S7 => 17
-  | F_F7 => 18 | F_C2 => 19 | F_A1 => 20 | F_A2 => 21 | F_X5 => 22 | F_X6 => 23
+  | F_F7 => 18 | F_C2 => 19 | F_A1 => 20 | F_A2 => 21 | F_F5 => 22 | F_X6 => 23
   | F_X7 => 24 | F_X8 => 25 | F_X9 => 26
   end.
 
